@@ -9,7 +9,7 @@
 From V.lib Require Import Bits Mem Res.
 From V.model Require Import Apu.
 From V.spec Require Import ApuSpec.
-From V.proofs Require Import ApuLemmas ApuStatusProofs ApuFreqProofs ApuFreqSpecProofs.
+From V.proofs Require Import ApuLemmas ApuStatusProofs ApuFreqProofs ApuFreqSpecProofs ApuLengthProofs ApuFreqHistProofs.
 
 (* Channel 2 (every state, every written byte with the trigger bit, every n): the frequency f is < 2048 and the
    duty position after n clocks is (start + (n-1) / (4*(2048-f))) mod 8: a step every 4*(2048-f) clocks. *)
@@ -41,6 +41,52 @@ Theorem C21_square_any_state : forall (f : N) (s : apu) (n : N),
   sqDutyIdx (ch2 (apu_clocks n s)) = (sqDutyIdx (ch2 s) + osc_count (4 * (2048 - f)) (sqTimer (ch2 s)) n) mod 8.
 Proof. intros f s n Hf Hi. exact (proj2 (ch2_clocks f s n Hf Hi)). Qed.
 Print Assumptions C21_square_any_state.
+
+(* Independence of the channels: along ANY history of machine cycles and writes to the registers of the OTHER
+   channels (their triggers included; everything except NR21-NR24 and NR52), channel 2's timer and duty position
+   are the closed forms in n = 4 * (machine cycles); likewise channel 3 (not NR30-NR34, NR52, wave RAM) and the
+   noise channel (not NR41-NR44, NR52). *)
+Theorem C21_square2_history : forall (f : N) (h : list apu_op) (s : apu),
+  f < 2048 -> sq_inv f (ch2 s) ->
+  Forall (fun o => match o with OWrite a v => not_ch2 a | OCycle => True end) h ->
+  let n := 4 * n_cycles h in
+  sqDutyIdx (ch2 (apu_run s h)) = (sqDutyIdx (ch2 s) + osc_count (4 * (2048 - f)) (sqTimer (ch2 s)) n) mod 8 /\
+  sqTimer (ch2 (apu_run s h)) = osc_timer (4 * (2048 - f)) (sqTimer (ch2 s)) n /\
+  sqFreq (ch2 (apu_run s h)) = f.
+Proof. exact square2_history. Qed.
+Print Assumptions C21_square2_history.
+
+Theorem C21_wave_history : forall (f : N) (h : list apu_op) (s : apu),
+  f < 2048 -> wv_inv f (ch3 s) ->
+  Forall (fun o => match o with OWrite a v => not_ch3 a | OCycle => True end) h ->
+  let n := 4 * n_cycles h in
+  wvPosition (ch3 (apu_run s h)) = (wvPosition (ch3 s) + osc_count (2 * (2048 - f)) (wvTimer (ch3 s)) n) mod 32 /\
+  wvTimer (ch3 (apu_run s h)) = osc_timer (2 * (2048 - f)) (wvTimer (ch3 s)) n.
+Proof. exact wave_history. Qed.
+Print Assumptions C21_wave_history.
+
+Theorem C21_noise_history : forall (r sft wd : N) (h : list apu_op) (s : apu),
+  r < 8 -> sft < 16 -> ns_inv r sft wd (ch4 s) ->
+  Forall (fun o => match o with OWrite a v => not_ch4 a | OCycle => True end) h ->
+  let n := 4 * n_cycles h in
+  nsLfsr (ch4 (apu_run s h)) = N.iter (osc_count (noise_per r sft) (nsTimer (ch4 s)) n) (lfsr_step wd) (nsLfsr (ch4 s)) /\
+  nsTimer (ch4 (apu_run s h)) = osc_timer (noise_per r sft) (nsTimer (ch4 s)) n.
+Proof. exact noise_history. Qed.
+Print Assumptions C21_noise_history.
+
+(* The 11-bit frequency is assembled correctly in either write order: NRx3 replaces the low byte and keeps all of
+   bits 8-10 (C21_nrx3_keeps_high_bits), NRx4 replaces bits 8-10 and keeps the low byte (nr_freq_value). *)
+Theorem C21_nrx3_keeps_high_bits : forall (s : apu) (v : N),
+  is_on s = true -> v < 256 ->
+  (sqFreq (ch2 s) < 2048 -> sqFreq (ch2 (apu_bus_write s 0xFF18 v)) = 256 * (sqFreq (ch2 s) / 256) + v) /\
+  (wvFreq (ch3 s) < 2048 -> wvFreq (ch3 (apu_bus_write s 0xFF1D v)) = 256 * (wvFreq (ch3 s) / 256) + v) /\
+  (sqFreq (ch1 s) < 2048 -> sqFreq (ch1 (apu_bus_write s 0xFF13 v)) = 256 * (sqFreq (ch1 s) / 256) + v).
+Proof. exact nrx3_keeps_high_bits. Qed.
+Print Assumptions C21_nrx3_keeps_high_bits.
+
+Theorem C21_nrx4_keeps_low_byte : forall old v : N, nr_freq old v = old mod 256 + 256 * (v mod 8) /\ nr_freq old v < 2048.
+Proof. intros old v. split; [exact (nr_freq_value old v) | exact (nr_freq_range old v)]. Qed.
+Print Assumptions C21_nrx4_keeps_low_byte.
 
 (* Channel 3, triggered while off with its DAC on and length disabled: position (n-1) / (2*(2048-f)) mod 32. *)
 Theorem C21_wave : forall (s : apu) (v n : N),
